@@ -809,9 +809,7 @@ pub fn c15_cursors(input: &str, cfg: &Cfg, cursors: &[u32]) -> Vec<String> {
     }
     for (c_in, c_out) in cursors.iter().zip(cur.iter()) {
         let co = *c_out as usize;
-        if co > out.len() {
-            fails.push("c15: reported cursor lies beyond the output".to_string());
-        } else if !out.is_char_boundary(co) {
+        if co > out.len() || !out.is_char_boundary(co) {
             let toks = lex_offsets(input);
             let ci = *c_in as usize;
             let mut place = "beyond the end".to_string();
@@ -821,7 +819,11 @@ pub fn c15_cursors(input: &str, cfg: &Cfg, cursors: &[u32]) -> Vec<String> {
                     break;
                 }
             }
-            fails.push(format!("c15: reported cursor is not on a character boundary (cursor was in {})", place));
+            if co > out.len() {
+                fails.push(format!("c15: reported cursor lies beyond the output (cursor was in {})", place));
+            } else {
+                fails.push(format!("c15: reported cursor is not on a character boundary (cursor was in {})", place));
+            }
         }
         if *c_in as usize > input.len() && co != out.len() {
             fails.push("c15: a cursor beyond the end of the input does not map to the end of the output".to_string());
